@@ -59,6 +59,8 @@ class Behaviour:
         steps = plan["steps"].get(f"{point}-{pos}", 0)
         for _ in range(steps):
             m = f"marker-{self.n}-{point}-{pos}"
+            if plan.get("odd_text") and self.n == 1:
+                m += " file dump-\udcff\udcfe.bin"
             self.n += 1
             logger.info(m)
             self.markers.append(m)
@@ -220,6 +222,8 @@ class C15(Check):
         plan["pump"] = rng.choice(["eager", "lag", "never"])
         plan["db_lat"] = rng.choice([0.0001, 0.001, 0.01])
         plan["trace_log"] = rng.random() < 0.3
+        plan["db_locked"] = rng.random() < 0.25  # one transient 'database is locked' on a row insert (another process reads the database)
+        plan["odd_text"] = rng.random() < 0.3  # a marker message that is not valid UTF-8 (file name decoded with surrogateescape)
         plan["net_seed"] = rng.getrandbits(30)
         return plan
 
@@ -227,7 +231,7 @@ class C15(Check):
         import copy
 
         for key, val in (("lock", False), ("db", False), ("hooks", False), ("pre_hook", "absent"), ("post_hook", "absent"),
-                         ("sigint", None), ("sigint_frac", None), ("pump", "eager"), ("artifacts", False), ("trace_log", False)):
+                         ("sigint", None), ("sigint_frac", None), ("db_locked", False), ("odd_text", False), ("pump", "eager"), ("artifacts", False), ("trace_log", False)):
             if plan.get(key) != val:
                 p = copy.deepcopy(plan)
                 p[key] = val
@@ -257,6 +261,17 @@ class C15(Check):
         tmp = Path(world.tmp)
         world.net.policy_factory = lambda i, d: Policy(seed=plan["net_seed"] + i * 2 + (d == "s2c"), segment="random")
         world.sql.latency = lambda c, n: plan["db_lat"]
+        if plan.get("db_locked"):
+            lock_state = {"n": 0}
+
+            def db_fault(conn: Any, sql: str) -> Exception | None:
+                if "INSERT INTO scan_result" in sql and lock_state["n"] == 0:
+                    lock_state["n"] = 1
+                    bump(res["faults"], "db_locked_on_insert")
+                    return sqlite3.OperationalError("database is locked")
+                return None
+
+            world.sql.fault = db_fault
         world.install()
         kw: dict[str, Any] = {"trace_log": plan["trace_log"], "hooks": plan["hooks"]}
         if plan["artifacts"]:
@@ -295,6 +310,8 @@ class C15(Check):
             world.start_pump(0.0005, None)
         elif plan["pump"] == "lag":
             world.start_pump(0.05, 3)
+        else:
+            world.pumps.rate = 0.0
 
         async def main() -> int:
             if kind != "script":
